@@ -370,7 +370,18 @@ func loadChunk(l *Lexer, recordLen uint64) error {
 	}
 
 	// read compression and records length into buffer
-	thisReadLength, err := io.ReadFull(l.reader, l.buf[:compressionLen+8])
+	n := uint64(compressionLen) + 8
+	buf := l.buf
+	if n > uint64(len(buf)) {
+		if n > recordLen {
+			return fmt.Errorf("compression length %d exceeds chunk record length %d", compressionLen, recordLen)
+		}
+		buf, err = makeSafe(n)
+		if err != nil {
+			return fmt.Errorf("failed to allocate compression buffer: %w", err)
+		}
+	}
+	thisReadLength, err := io.ReadFull(l.reader, buf[:n])
 	readLength += thisReadLength
 	if errors.Is(err, io.ErrUnexpectedEOF) || errors.Is(err, io.EOF) {
 		return &ErrTruncatedRecord{
@@ -382,8 +393,8 @@ func loadChunk(l *Lexer, recordLen uint64) error {
 	if err != nil {
 		return fmt.Errorf("failed to read compression from chunk: %w", err)
 	}
-	compression := CompressionFormat(l.buf[:compressionLen])
-	recordsLength, _, err := getUint64(l.buf, int(compressionLen))
+	compression := CompressionFormat(buf[:compressionLen])
+	recordsLength, _, err := getUint64(buf, int(compressionLen))
 	if err != nil {
 		return fmt.Errorf("failed to read records length: %w", err)
 	}
